@@ -1,4 +1,5 @@
 import TantivyModel.Proofs.GrammarCharsNested
+import TantivyModel.Proofs.GrammarCharsHat
 namespace TantivyModel.Grammar.Chars
 open TantivyModel.Grammar
 
@@ -111,8 +112,18 @@ structure Closed (g : Bool) (o : Opd) : Prop where
 theorem Closed.toGood {g : Bool} {o : Opd} (h : Closed g o) : GoodOpd g o :=
   ⟨h.head, fun t _ => h.noOp t, fun t _ f hf => h.parse t f hf, h.small⟩
 
-/-- a boost after a closed operand is an item of a list -/
-theorem goodItem_boost (g : Bool) (o : Opd) (b : BoostLit) (ho : Closed g o) (hb : WFBoost b) :
+/-- an operand that can be followed by a boost: what the parser does when `^` follows it -/
+structure Boostable (g : Bool) (o : Opd) : Prop where
+  head : ∃ c r, o.text = c :: r ∧ isNomSpace c = false ∧ c ≠ ':' ∧ c ≠ '+' ∧ c ≠ '-' ∧ c ≠ ')'
+  noOp : ∀ x, binaryOperand (o.text ++ '^' :: x) = (none, o.text ++ '^' :: x)
+  parse : ∀ x f, o.cost ≤ f → pLeaf g f (o.text ++ '^' :: x) = .ok o.leaf ('^' :: x)
+  small : o.cost ≤ 4 * o.text.length
+
+theorem Closed.toBoostable {g : Bool} {o : Opd} (h : Closed g o) : Boostable g o :=
+  ⟨h.head, fun x => h.noOp _, fun x f hf => h.parse _ f hf, h.small⟩
+
+/-- a boost after a boostable operand is an item of a list -/
+theorem goodItem_boost (g : Bool) (o : Opd) (b : BoostLit) (ho : Boostable g o) (hb : WFBoost b) :
     GoodItem g (boostOpd o b) := by
   obtain ⟨c, r, hcr, h1, h2, h3, h4, h5⟩ := ho.head
   refine ⟨⟨c, r ++ '^' :: b.text, by simp [boostOpd, hcr], h1, h2, h3, h4, h5⟩, ?_, ?_, ?_⟩
@@ -123,11 +134,93 @@ theorem goodItem_boost (g : Bool) (o : Opd) (b : BoostLit) (ho : Closed g o) (hb
   · intro t ht f hf
     have e : (boostOpd o b).text ++ t = o.text ++ ('^' :: (b.text ++ t)) := by simp [boostOpd]
     rw [e]
-    have hp := ho.parse ('^' :: (b.text ++ t)) f (by simpa [boostOpd] using hf)
+    have hp := ho.parse (b.text ++ t) f (by simpa [boostOpd] using hf)
     simp [pLeafB, hp, R.bind, boost_print b hb t ht, boostOpd]
   · have := ho.small
     simp only [boostOpd, List.length_append, List.length_cons]
     omega
+
+/-- a plain word can be boosted -/
+theorem boostable_word (g : Bool) (w : Str) (hw : PlainWord w) : Boostable g (wordOpd w) := by
+  obtain ⟨c, r, rfl⟩ := List.exists_cons_of_ne_nil hw.ne
+  have hc : plain c = true := hw.all c (by simp)
+  refine ⟨⟨c, r, rfl, (plain_not_space c hc).2, plain_ne c ':' hc (by decide), plain_ne c '+' hc (by decide),
+    plain_ne c '-' hc (by decide), plain_ne c ')' hc (by decide)⟩, ?_, ?_, ?_⟩
+  · intro x
+    exact binaryOperand_hat (c :: r) x hw
+  · intro x f hf
+    obtain ⟨f', rfl⟩ : ∃ f', f = f' + 1 := ⟨f - 1, by simp [wordOpd] at hf; omega⟩
+    exact pLeaf_hat c r x hw g f'
+  · simp [wordOpd]; omega
+
+/-- `name:word` can be boosted -/
+theorem boostable_fieldWord (g : Bool) (f w : Str) (hf : PlainWord f) (hw : PlainWord w) :
+    Boostable g (fieldWordOpd f w) := by
+  obtain ⟨c, r, rfl⟩ := List.exists_cons_of_ne_nil hf.ne
+  obtain ⟨d, s, rfl⟩ := List.exists_cons_of_ne_nil hw.ne
+  have hc : plain c = true := hf.all c (by simp)
+  have hd : plain d = true := hw.all d (by simp)
+  refine ⟨⟨c, r ++ ':' :: d :: s, rfl, (plain_not_space c hc).2, plain_ne c ':' hc (by decide),
+    plain_ne c '+' hc (by decide), plain_ne c '-' hc (by decide), plain_ne c ')' hc (by decide)⟩, ?_, ?_, ?_⟩
+  · intro x
+    have e : (fieldWordOpd (c :: r) (d :: s)).text ++ '^' :: x = (c :: r) ++ ':' :: (d :: (s ++ '^' :: x)) := by
+      simp [fieldWordOpd]
+    rw [e]
+    exact binaryOperand_field (c :: r) _ hf
+  · intro x fu hfu
+    obtain ⟨f', rfl⟩ : ∃ f', fu = f' + 1 := ⟨fu - 1, by simp [fieldWordOpd] at hfu; omega⟩
+    have e : (fieldWordOpd (c :: r) (d :: s)).text ++ '^' :: x = c :: (r ++ ':' :: (d :: (s ++ '^' :: x))) := by
+      simp [fieldWordOpd]
+    rw [e]
+    have hsk : skip0 (d :: (s ++ '^' :: x)) = d :: (s ++ '^' :: x) := by
+      simp [skip0, List.dropWhile, (plain_not_space d hd).2]
+    exact pLeaf_field g f' c r _ hf _ _
+      (plainLiteral_field g c r _ hf hsk (fieldName_hat d s x hw) _ _ _ _ _ (plainLiteral_hat d s x hw g))
+  · simp [fieldWordOpd]; omega
+
+/-- a quoted phrase (any characters, optional slop / prefix star) can be boosted -/
+theorem boostable_phrase (g : Bool) (body : Str) (sx : Sfx) (hs : WFSfx sx) :
+    Boostable g (phraseEscOpd body sx) := by
+  refine ⟨⟨'"', escQuoted body ++ '"' :: sx.text, rfl, by decide, by decide, by decide, by decide, by decide⟩, ?_, ?_, ?_⟩
+  · intro x
+    simp [phraseEscOpd, binaryOperand, tag, List.isPrefixOf]
+  · intro x f hf
+    obtain ⟨f', rfl⟩ : ∃ f', f = f' + 1 := ⟨f - 1, by simp [phraseEscOpd] at hf; omega⟩
+    have htext : (phraseEscOpd body sx).text ++ '^' :: x = '"' :: (escQuoted body ++ '"' :: (sx.text ++ '^' :: x)) := by
+      simp [phraseEscOpd]
+    rw [htext]
+    have hp := plainLiteral_phraseEsc g body (sx.text ++ '^' :: x) ('^' :: x) _ _ (slopOrPrefix_sfx_hat sx hs x)
+    generalize escQuoted body ++ '"' :: (sx.text ++ '^' :: x) = y at hp
+    unfold pLeaf
+    simp [R.orElse, tag, List.isPrefixOf, hp, phraseEscOpd]
+  · simp [phraseEscOpd]; omega
+
+/-- `name:"phrase"` can be boosted -/
+theorem boostable_fieldPhrase (g : Bool) (f body : Str) (sx : Sfx) (hf : PlainWord f) (hs : WFSfx sx) :
+    Boostable g (fieldPhraseEscOpd f body sx) := by
+  obtain ⟨c, r, rfl⟩ := List.exists_cons_of_ne_nil hf.ne
+  have hc : plain c = true := hf.all c (by simp)
+  refine ⟨⟨c, r ++ ':' :: '"' :: (escQuoted body ++ '"' :: sx.text), rfl, (plain_not_space c hc).2,
+    plain_ne c ':' hc (by decide), plain_ne c '+' hc (by decide), plain_ne c '-' hc (by decide),
+    plain_ne c ')' hc (by decide)⟩, ?_, ?_, ?_⟩
+  · intro x
+    have e : (fieldPhraseEscOpd (c :: r) body sx).text ++ '^' :: x
+        = (c :: r) ++ ':' :: ('"' :: (escQuoted body ++ '"' :: (sx.text ++ '^' :: x))) := by
+      simp [fieldPhraseEscOpd]
+    rw [e]
+    exact binaryOperand_field (c :: r) _ hf
+  · intro x fu hfu
+    obtain ⟨f', rfl⟩ : ∃ f', fu = f' + 1 := ⟨fu - 1, by simp [fieldPhraseEscOpd] at hfu; omega⟩
+    have e : (fieldPhraseEscOpd (c :: r) body sx).text ++ '^' :: x
+        = c :: (r ++ ':' :: ('"' :: (escQuoted body ++ '"' :: (sx.text ++ '^' :: x)))) := by
+      simp [fieldPhraseEscOpd]
+    rw [e]
+    have hp := plainLiteral_phraseEsc g body (sx.text ++ '^' :: x) ('^' :: x) _ _ (slopOrPrefix_sfx_hat sx hs x)
+    generalize escQuoted body ++ '"' :: (sx.text ++ '^' :: x) = y at hp
+    exact pLeaf_field g f' c r _ hf _ _
+      (plainLiteral_field g c r _ hf (by simp [skip0, List.dropWhile, isNomSpace])
+        (by simp [fieldName, specialChars]) _ _ _ _ _ hp)
+  · simp [fieldPhraseEscOpd]; omega
 
 /-- a parenthesised list of good items is closed -/
 theorem closed_group (g : Bool) (lead : Nat) (occ : Option Occur) (o : Opd) (more : List PItem) (k : Nat)
@@ -255,6 +348,13 @@ inductive WFB : Bool → Opd → Prop where
   | boostGroup (lead : Nat) (occ : Option Occur) (o : Opd) (more : List PItem) (k : Nat) (bo : Bool)
       (bm : PItem → Bool) (ho : WFB bo o) (hm : ∀ it ∈ more, WFB (bm it) it.opd) (b : BoostLit) (hb : WFBoost b) :
       WFB true (boostOpd (groupOpd lead occ o more k) b)
+  | boostWord (w : Str) (hw : PlainWord w) (b : BoostLit) (hb : WFBoost b) : WFB true (boostOpd (wordOpd w) b)
+  | boostFieldWord (f w : Str) (hf : PlainWord f) (hw : PlainWord w) (b : BoostLit) (hb : WFBoost b) :
+      WFB true (boostOpd (fieldWordOpd f w) b)
+  | boostPhrase (body : Str) (sx : Sfx) (hs : WFSfx sx) (b : BoostLit) (hb : WFBoost b) :
+      WFB true (boostOpd (phraseEscOpd body sx) b)
+  | boostFieldPhrase (f body : Str) (sx : Sfx) (hf : PlainWord f) (hs : WFSfx sx) (b : BoostLit) (hb : WFBoost b) :
+      WFB true (boostOpd (fieldPhraseEscOpd f body sx) b)
   | boostRange (lo hi : Bool) (w1 w2 : Str) (h1 : PlainBound w1) (h2 : PlainBound w2) (b : BoostLit) (hb : WFBoost b) :
       WFB true (boostOpd (rangeOpd lo hi w1 w2) b)
   | boostFieldRange (f : Str) (lo hi : Bool) (w1 w2 : Str) (hf : PlainWord f) (h1 : PlainBound w1)
@@ -275,16 +375,24 @@ theorem wfb_good (g : Bool) (bo : Bool) (o : Opd) (h : WFB bo o) :
     have := goodOpd_not g k o (ih.2 rfl)
     exact ⟨this.toItem, fun _ => this⟩
   | boostGroup lead occ o more k bo bm _ _ b hb iho ihm =>
-    exact ⟨goodItem_boost g _ b (closed_group g lead occ o more k iho.1 (fun it hi => (ihm it hi).1)) hb,
+    exact ⟨goodItem_boost g _ b (closed_group g lead occ o more k iho.1 (fun it hi => (ihm it hi).1)).toBoostable hb,
       fun h => Bool.noConfusion h⟩
+  | boostWord w hw b hb =>
+    exact ⟨goodItem_boost g _ b (boostable_word g w hw) hb, fun h => Bool.noConfusion h⟩
+  | boostFieldWord f w hf hw b hb =>
+    exact ⟨goodItem_boost g _ b (boostable_fieldWord g f w hf hw) hb, fun h => Bool.noConfusion h⟩
+  | boostPhrase body sx hs b hb =>
+    exact ⟨goodItem_boost g _ b (boostable_phrase g body sx hs) hb, fun h => Bool.noConfusion h⟩
+  | boostFieldPhrase f body sx hf hs b hb =>
+    exact ⟨goodItem_boost g _ b (boostable_fieldPhrase g f body sx hf hs) hb, fun h => Bool.noConfusion h⟩
   | boostRange lo hi w1 w2 h1 h2 b hb =>
-    exact ⟨goodItem_boost g _ b (closed_range g lo hi w1 w2 h1 h2) hb, fun h => Bool.noConfusion h⟩
+    exact ⟨goodItem_boost g _ b (closed_range g lo hi w1 w2 h1 h2).toBoostable hb, fun h => Bool.noConfusion h⟩
   | boostFieldRange f lo hi w1 w2 hf h1 h2 b hb =>
-    exact ⟨goodItem_boost g _ b (closed_fieldRange g f lo hi w1 w2 hf h1 h2) hb, fun h => Bool.noConfusion h⟩
+    exact ⟨goodItem_boost g _ b (closed_fieldRange g f lo hi w1 w2 hf h1 h2).toBoostable hb, fun h => Bool.noConfusion h⟩
   | boostSet k0 k1 w more h b hb =>
-    exact ⟨goodItem_boost g _ b (closed_set g k0 k1 w more h) hb, fun h => Bool.noConfusion h⟩
+    exact ⟨goodItem_boost g _ b (closed_set g k0 k1 w more h).toBoostable hb, fun h => Bool.noConfusion h⟩
   | boostFieldSet f k0 k1 w more hf h b hb =>
-    exact ⟨goodItem_boost g _ b (closed_fieldSet g f k0 k1 w more hf h) hb, fun h => Bool.noConfusion h⟩
+    exact ⟨goodItem_boost g _ b (closed_fieldSet g f k0 k1 w more hf h).toBoostable hb, fun h => Bool.noConfusion h⟩
 
 /-- the whole strict parser on a printed list whose items may carry boosts -/
 theorem parseStrictWith_printList_boost (g : Bool) (lead : Nat) (occ : Option Occur) (o : Opd)
